@@ -85,3 +85,21 @@ Example totality_nonvacuous :
   length (dlv nat nat nat (fst (srun3 sched3))) = 4 /\
   p2p nat nat nat (fst (srun3 sched3)) = [(0, 2, 5)].
 Proof. vm_compute. repeat split; reflexivity. Qed.
+
+(* ---- the number of vouchers cannot be lowered: four participants, sender 0 and member 3 Byzantine.  A party that hands over
+   on N-1-f = 2 vouchers (an instance configured with cN = 3) is split from its peer by the "split vouchers" schedule of the
+   attack stream; with all N-1 = 3 vouchers required (cN = 4, what the code computes) the same scripts hand over nothing. ---- *)
+Definition cfg4 (h n : nat) := mkCfg h n [0; 1; 2; 3] true true.
+Lemma quorum_tight :
+  delivered (run (cfg4 1 3) [(0, Bcast 7 0); (3, Ack 7 0 0)]) = [(0, 0, Some 7)] /\
+  delivered (run (cfg4 2 3) [(0, Bcast 9 0); (3, Ack 9 0 0)]) = [(0, 0, Some 9)] /\
+  delivered (run (cfg4 1 4) [(0, Bcast 7 0); (3, Ack 7 0 0)]) = [] /\
+  delivered (run (cfg4 2 4) [(0, Bcast 9 0); (3, Ack 9 0 0)]) = [].
+Proof. repeat split; reflexivity. Qed.
+
+(* ---- "round revisited" (instance of at-most-once, and the schedule of the attack stream): what a party remembers about
+   (sender 0, round 0) survives the sender's round 1; the second payload for round 0 is a detected equivocation. ---- *)
+Lemma round_revisited_fixed :
+  delivered (run (fixd 1) [(0, Bcast 7 0); (2, Ack 7 0 0); (0, Bcast 8 1); (2, Ack 8 0 1); (0, Bcast 9 0); (2, Ack 9 0 0)])
+  = [(0, 0, Some 7); (0, 1, Some 8)].
+Proof. reflexivity. Qed.
